@@ -82,6 +82,10 @@ def step (st : St) (line : String) : St × String :=
     | some k, some f, some o =>
       (st, match single st.db k f o with | some j => "one " ++ toString j | none => "none")
     | _, _, _ => (st, "bad-op")
+  | ["n", t, s, o] =>
+    match t.toNat?, o.toNat? with
+    | some t, some o => (st, showIds (manyToMany st.db t (s == "1") o))
+    | _, _ => (st, "bad-op")
   | "r" :: t :: s :: o :: cls :: ks =>
     match t.toNat?, o.toNat?, cls.toNat?, keys? ks with
     | some t, some o, some cls, some ks => (st, showIds (relatedJoin (attrOf st cls) st.db t (s == "1") ks o))
@@ -90,6 +94,8 @@ def step (st : St) (line : String) : St × String :=
     match t.toNat?, a.toNat?, b.toNat? with
     | some t, some a, some b =>
       if op == "add" then ({ st with db := addLink st.db t (s == "1") a b }, "ok")
+      else if op == "addn" then ({ st with db := m2mAdd st.db t (s == "1") a b }, "ok")
+      else if op == "remn" then ({ st with db := m2mRemove st.db t (s == "1") a b }, "ok")
       else if op == "rem" then ({ st with db := removeLink st.db t (s == "1") a b }, "ok")
       else (st, "bad-op")
     | _, _, _ => (st, "bad-op")
